@@ -3,6 +3,8 @@ package main
 import (
 	"github.com/ipld/go-ipld-prime"
 	"github.com/ipld/go-ipld-prime/codec/dagjson"
+	"github.com/ipld/go-ipld-prime/datamodel"
+	"github.com/ipld/go-ipld-prime/fluent/qp"
 	"strings"
 	"unicode/utf8"
 
@@ -13,7 +15,7 @@ import (
 func init() {
 	register(stream{
 		name: "glob",
-		rule: "every (pattern, string) pair over the alphabet {a,b,*,\\} with |pattern| ≤ N and |string| ≤ N (N=4 quick, 5 thorough), evaluated through policy.Like + Policy.Match on a string node, plus random longer pairs and multi-byte UTF-8. Added later: every statement is also matched as decoded from its own IPLD and DAG-JSON form, and again on the first object after it matched other strings. Every pair over the bytes {0xff,0xfe,0xe2,0x82,0xac,*} up to length 3 (bytes that are not UTF-8, one character taken apart) plus the replacement character: the match is on bytes (no DAG-JSON leg for patterns that are not UTF-8). One text cut into (pattern, string) at two places, the two pairs matched one right after the other, in both orders. Non-trivial = the pattern contains a wildcard or an escape. Distinct = distinct protocol lines.",
+		rule: "every (pattern, string) pair over the alphabet {a,b,*,\\} with |pattern| ≤ N and |string| ≤ N (N=4 quick, 5 thorough), evaluated through policy.Like + Policy.Match on a string node, plus random longer pairs and multi-byte UTF-8. Added later: every statement is also matched as decoded from its own IPLD and DAG-JSON form, and again on the first object after it matched other strings. Every pair over the bytes {0xff,0xfe,0xe2,0x82,0xac,*} up to length 3 (bytes that are not UTF-8, one character taken apart) plus the replacement character: the match is on bytes (no DAG-JSON leg for patterns that are not UTF-8). A pattern the constructor refuses is also offered to FromIPLD and FromDagJson, which must refuse it. One text cut into (pattern, string) at two places, the two pairs matched one right after the other, in both orders. Non-trivial = the pattern contains a wildcard or an escape. Distinct = distinct protocol lines.",
 		run:  runGlobStream,
 		eval: evalGlob,
 		cmp: func(line, g, m string) string {
@@ -36,6 +38,23 @@ func init() {
 func goLike(p, s string) string {
 	pol, err := policy.Construct(policy.Like(".", p))
 	if err != nil {
+		// a pattern the constructor refuses is refused by the decoders too (a statement that arrives in a token is a decoded one)
+		if nd, e := qp.BuildList(basicnode.Prototype.Any, 1, func(la datamodel.ListAssembler) {
+			qp.ListEntry(la, qp.List(3, func(st datamodel.ListAssembler) {
+				qp.ListEntry(st, qp.String("like"))
+				qp.ListEntry(st, qp.String("."))
+				qp.ListEntry(st, qp.String(p))
+			}))
+		}); e == nil {
+			if pd, e := policy.FromIPLD(nd); e == nil {
+				return "decoder accepts a pattern the constructor refuses: " + pd.String()
+			}
+			if js, e := ipld.Encode(nd, dagjson.Encode); e == nil && utf8.ValidString(p) {
+				if pd, e := policy.FromDagJson(string(js)); e == nil {
+					return "DAG-JSON decoder accepts a pattern the constructor refuses: " + pd.String()
+				}
+			}
+		}
 		return "err"
 	}
 	n := basicnode.NewString(s)
